@@ -387,13 +387,13 @@ func rsTeardown() {
 }
 
 // rsAddYield parses "y<p><sel>:<µs>:<n>" — p: w = transport write, c = caller between send and receive,
-// r = receive loop before it processes a message; sel: k ack, q request, r rpc_result, o other, * any.
+// r = receive loop before it processes a message, R = the receive goroutine before a read of the connection; sel: k ack, q request, r rpc_result, o other, * any.
 func rsAddYield(st string) bool {
 	parts := strings.Split(st[1:], ":")
 	if len(parts) != 3 || len(parts[0]) != 2 {
 		return false
 	}
-	point := map[byte]string{'w': "write", 'c': "call:sent", 'r': "recv:process"}[parts[0][0]]
+	point := map[byte]string{'w': "write", 'c': "call:sent", 'r': "recv:process", 'R': "read"}[parts[0][0]]
 	if point == "" {
 		return false
 	}
@@ -928,6 +928,23 @@ func (r *rsRun) runPlan(plan string) string {
 			if !r.waitCalls(3 * time.Second) {
 				return "calls-did-not-return-at-join"
 			}
+		case st == "X": // the application reconnects (what PHONE_MIGRATE does too): Reconnect() from another goroutine
+			before := r.srv.conns
+			r.log.add("C")
+			done := make(chan error, 1)
+			go func() { done <- r.m.Reconnect() }()
+			select {
+			case err := <-done:
+				if err != nil {
+					return "reconnect-failed:" + strings.ReplaceAll(err.Error(), " ", "_")
+				}
+			case <-time.After(3 * time.Second):
+				return "reconnect-did-not-return"
+			}
+			if !r.srv.waitConns(before+1, 3*time.Second) {
+				return "no-reconnect"
+			}
+			time.Sleep(4 * time.Millisecond)
 		case st == "close":
 			before := r.srv.conns
 			r.log.add("C")
